@@ -1438,3 +1438,160 @@ def k_resolve_selection(R):
                 R.discharged += 1
         R.sample(dict(kernel='resolve_selection', sub_selection=items, paths=len(outs)))
     return out
+
+
+# ---------------------------------------------------------------- C05: operation selection
+
+def k_operation_selection(R, nops):
+    """lib::generate_module_token_stream_inner with `query::resolve` and `GeneratedModule::to_token_stream` stubbed:
+    which operations get a module, for every (mode, explicit name present / absent, operation names)."""
+    import re as _re
+    import summaries as S
+    f = R.fn('generate_module_token_stream_inner')
+    modes = R.L.enums['CodegenMode']
+    norms = R.L.enums['Normalization']
+    out = []
+    names = [z3.String(f'op_name{i}') for i in range(nops)]
+    want = z3.String('op_wanted')
+    has_want = z3.BitVec('op_has_wanted', 8)
+    mode = z3.BitVec('op_mode', 8)
+    norm = z3.BitVec('op_norm', 8)
+    holder = {}
+
+    def stub_resolve(vm, st, callee, args, dest, ret_bb, m):
+        B = holder['B']
+        ops = [B.struct('ResolvedOperation', name=StrV(n), _operation_type=B.variant('OperationType', 'Query'), selection_set=VecV(()), object_id=B.newtype('ObjectId', bv(0, 32)))
+               for n in names]
+        q = B.struct('Query', fragments=VecV(()), operations=VecV(ops), selection_parent_idx=B.btreemap([]), selections=VecV(()), variables=VecV(()))
+        return vm.ret(st, dest, ret_bb, Agg(0, [q], 'Result'))
+
+    def stub_module(vm, st, callee, args, dest, ret_bb, m):
+        gm = args[0] if isinstance(args[0], Agg) else vm.load(st, args[0])
+        op = S.as_str(vm, st, gm.fields[R.L.structs['GeneratedModule'].index('operation')])
+        return vm.ret(st, dest, ret_bb, Agg(0, [Tokens([('module', op.s)])], 'Result'))
+
+    def stub_error(vm, st, callee, args, dest, ret_bb, m):
+        return vm.ret(st, dest, ret_bb, StrV('operation not found'))
+    R.vm.overrides = [(_re.compile(r'^(query::)?resolve::<'), stub_resolve), (_re.compile(r'GeneratedModule::<.*>::to_token_stream$'), stub_module),
+                      (_re.compile(r'^derive_operation_not_found_error$'), stub_error)]
+
+    def setup(st, B):
+        holder['B'] = B
+        st.pc += [z3.ULT(has_want, 2), z3.ULT(mode, len(modes)), z3.ULT(norm, len(norms))]
+        # operation names in one document are distinct, also after normalization (else two `struct X;` items collide)
+        for i in range(nops):
+            for j in range(i + 1, nops):
+                st.pc.append(names[i] != names[j])
+                st.pc.append(CAMEL_OF(R, names[i]) != CAMEL_OF(R, names[j]))
+        opts = options_value(B, mode=SymEnum(mode, {i: () for i in range(len(modes))}), operation_name=SymEnum(has_want, {0: (), 1: (StrV(want),)}),
+                             normalization=SymEnum(norm, {i: () for i in range(len(norms))}))
+        doc = Opaque('QueryDocument')
+        R.vm.push_call(st, f, [B.cell(Agg(None, [StrV('query text'), doc])), B.cell(mini_schema(B)), opts], None, None)
+    outs, _ = R.explore(f'generate_module_token_stream_inner({nops} operations)', setup)
+    R.vm.overrides = []
+    i_cli, i_derive = modes.index('Cli'), modes.index('Derive')
+    i_rust = norms.index('Rust')
+    normed = [z3.If(norm == i_rust, CAMEL_OF(R, n), n) for n in names]
+    matches = [z3.And(has_want == 1, normed[i] == want) for i in range(nops)]
+    first_match = [z3.And(matches[i], *[z3.Not(matches[j]) for j in range(i)]) for i in range(nops)]
+    any_match = z3.Or(*matches)
+    for o in outs:
+        if o.kind != 'return':
+            if o.kind not in ('panic',):
+                R.inconclusive.append(f'operation_selection: {o.kind}: {o.msg}')
+            continue
+        v = o.value
+        if isinstance(v, SymEnum):
+            R.inconclusive.append('operation_selection: symbolic Result')
+            continue
+        if v.variant == 1:
+            # an error: only in derive mode without a matching operation
+            claim = z3.And(mode == i_derive, z3.Not(any_match))
+            what = 'generation fails although an operation is selected / all operations are requested'
+        else:
+            toks = v.fields[0]
+            mods = [t[1] for t in toks.items if t[0] == 'module']
+            ok_shape = len(mods) == len(toks.items)
+            # exactly the selected operation, or (CLI, no explicit name) one module per operation in document order
+            sel = z3.Or(*[z3.And(first_match[i], z3.BoolVal(len(mods) == 1), zstr(mods[0]) == names[i]) for i in range(nops)]) if len(mods) == 1 else z3.BoolVal(False)
+            allops = z3.And(mode == i_cli, has_want == 0, z3.BoolVal(len(mods) == nops), *[zstr(mods[i]) == names[i] for i in range(min(len(mods), nops))]) if len(mods) == nops else z3.BoolVal(False)
+            # documented CLI fallback: an explicit name that matches nothing generates all operations
+            fallback = z3.And(mode == i_cli, has_want == 1, z3.Not(any_match), z3.BoolVal(len(mods) == nops), *[zstr(mods[i]) == names[i] for i in range(min(len(mods), nops))]) if len(mods) == nops else z3.BoolVal(False)
+            claim = z3.And(z3.BoolVal(ok_shape), z3.Or(sel, allops, fallback))
+            what = 'modules generated for other operations than the selected one'
+        m = R.prove('operation_selection', o, claim, what)
+        if m is not None:
+            ev = lambda x: m.eval(x, model_completion=True)
+            out.append(dict(kernel='operation_selection', prop='C05', what=what, mode=modes[ev(mode).as_long()], normalization=norms[ev(norm).as_long()],
+                            operation_name=ev(want).as_string() if ev(has_want).as_long() == 1 else None, operations=[ev(n).as_string() for n in names],
+                            camel=[ev(CAMEL_OF(R, n)).as_string() for n in names], result=('Err' if v.variant == 1 else [str(ev(zstr(t[1]))) for t in v.fields[0].items])))
+    R.sample(dict(kernel='operation_selection', operations=nops, paths=len(outs)))
+    return out
+
+
+def find_const_lit(tokens, name):
+    """value token of `const NAME : & str = <value> ;` anywhere in a token tree, or None"""
+    items = list(tokens.items)
+    for i, t in enumerate(items):
+        if t == ('ident', 'const') and i + 6 < len(items) and items[i + 1] == ('ident', name) and items[i + 5] == ('punct', '='):
+            return items[i + 6]
+        if t[0] == 'group':
+            r = find_const_lit(t[2], name)
+            if r is not None:
+                return r
+    return None
+
+
+def k_generated_module(R):
+    """GeneratedModule::to_token_stream with build_impls stubbed: OPERATION_NAME is the unmodified operation name,
+    QUERY is the query string, and build_query refers to exactly these constants"""
+    import re as _re
+    cands_fn = [fn for n, fn in R.L.funcs.items() if n.endswith('::to_token_stream') and fn.params and 'GeneratedModule' in fn.params[0][1]]
+    if len(cands_fn) != 1:
+        raise V.Unsupported('GeneratedModule::to_token_stream not found')
+    f = cands_fn[0]
+    modes = R.L.enums['CodegenMode']
+    norms = R.L.enums['Normalization']
+    op, qtext = z3.String('gm_operation'), z3.String('gm_query_text')
+    mode, norm = z3.BitVec('gm_mode', 8), z3.BitVec('gm_norm', 8)
+    out = []
+
+    def stub_impls(vm, st, callee, args, dest, ret_bb, m):
+        return vm.ret(st, dest, ret_bb, Agg(0, [Tokens([('impls',)])], 'Result'))
+    R.vm.overrides = [(_re.compile(r'GeneratedModule::<.*>::build_impls$'), stub_impls)]
+
+    def setup(st, B):
+        st.pc += [z3.ULT(mode, len(modes)), z3.ULT(norm, len(norms))]
+        opts = B.cell(options_value(B, mode=SymEnum(mode, {i: () for i in range(len(modes))}), normalization=SymEnum(norm, {i: () for i in range(len(norms))})))
+        gm = B.struct('GeneratedModule', operation=StrV(op), query_string=StrV(qtext), resolved_query=B.cell(empty_query(B)), schema=B.cell(mini_schema(B)), options=opts)
+        R.vm.push_call(st, f, [B.cell(gm)], None, None)
+    outs, _ = R.explore('GeneratedModule::to_token_stream', setup)
+    R.vm.overrides = []
+    for o in outs:
+        if o.kind != 'return':
+            if o.kind != 'panic':
+                R.inconclusive.append(f'generated_module: {o.kind}: {o.msg}')
+            continue
+        v = o.value
+        if isinstance(v, SymEnum) or v.variant != 0:
+            m = R.prove('generated_module', o, z3.BoolVal(False), 'module generation succeeds when the impls do')
+            if m is not None:
+                out.append(dict(kernel='generated_module', prop='C05', what='module generation failed', operation=m.eval(op, model_completion=True).as_string()))
+            continue
+        toks = v.fields[0]
+        on, qs = find_const_lit(toks, 'OPERATION_NAME'), find_const_lit(toks, 'QUERY')
+        claims = {
+            'OPERATION_NAME is the unmodified operation name': (zstr(on[1]) == op) if (on and on[0] == 'lit') else z3.BoolVal(False),
+            'QUERY is the query text': (zstr(qs[1]) == qtext) if (qs and qs[0] == 'lit') else z3.BoolVal(False),
+        }
+        text = repr(toks)
+        claims['build_query uses QUERY and OPERATION_NAME of the module'] = z3.BoolVal("('ident', 'query'), ('punct', ':')" in text and "('ident', 'operation_name'), ('punct', ':')" in text
+                                                                                       and text.count("('ident', 'QUERY')") >= 2 and text.count("('ident', 'OPERATION_NAME')") >= 2)
+        m = R.prove('generated_module', o, z3.And(*claims.values()), 'module constants')
+        if m is not None:
+            failing = [nm for nm, c in claims.items() if not z3.is_true(m.eval(c, model_completion=True))]
+            out.append(dict(kernel='generated_module', prop='C05', what=failing[0] if failing else '?', operation=m.eval(op, model_completion=True).as_string(),
+                            query=m.eval(qtext, model_completion=True).as_string(), mode=modes[m.eval(mode, model_completion=True).as_long()],
+                            normalization=norms[m.eval(norm, model_completion=True).as_long()]))
+    R.sample(dict(kernel='generated_module', paths=len(outs)))
+    return out
